@@ -8,7 +8,7 @@ CONSTANTS
   AvailSet <- A3to10
   IndSet = {0}
   AlignMode = 0
-  Pool <- PoolSmall
+  Pool <- PoolTiny
 INVARIANT TypeOK
 INVARIANT InvSucceeds
 INVARIANT InvFits
